@@ -36,13 +36,21 @@ type referral struct {
 	Server string        `json:"server"`
 	QName  string        `json:"qname"`
 	SentV  time.Duration `json:"sent_v"` // virtual instant it was sent (≤ the instant sdns observed it)
-	// Q is an instant by which sdns had certainly observed the referral: the
-	// next quiescent point, or — earlier — the arrival of the first DNSKEY
-	// query for the referring zone that the resolver sent after the referral
-	// left the server (the single resolution tree of the one client query in
-	// flight can only have sent it after looking at the referral). -1 = pending.
-	Q      time.Duration `json:"q_v"`
-	Tight  bool          `json:"q_from_followup_query,omitempty"`
+	// The referral was observed by sdns somewhere in the WINDOW [SentV, Q]:
+	// Q is the next quiescent point (no request in flight, prefetch idle, no
+	// resolver goroutine active). Whatever sdns derived from the referral —
+	// the observation instant as well as the instant it stored the lease —
+	// lies inside that window. -1 = still pending.
+	Q time.Duration `json:"q_v"`
+	// QT narrows the upper end of the window for the OBSERVATION instant only
+	// (never for the store instant): the arrival of the first DNSKEY query for
+	// the referring zone that reached a server after the referral had left.
+	// It is used only when the packet log of the whole window proves that one
+	// single resolution tree was at work (see world.windowClean), so that the
+	// query can only have been sent by the tree that had looked at the
+	// referral (or at a duplicate of it sent even earlier). Otherwise QT = Q.
+	QT     time.Duration `json:"qt_v"`
+	Tight  bool          `json:"qt_from_followup_query,omitempty"`
 	logLen int
 }
 
@@ -54,6 +62,8 @@ type world struct {
 	mu  sync.Mutex
 	sk  time.Duration // ΣD
 	ref []*referral
+	// winFrom is the packet-log position of the last quiescent point.
+	winFrom int
 
 	apex    []string   // apex[0] = ".", apex[j] = level j
 	zones   []*zm.Zone // original zones, zones[0] = root
@@ -383,18 +393,47 @@ func (w *world) recorder(server string) func(q, honest *dns.Msg) *dns.Msg {
 	}
 }
 
-// settle stamps every referral sent since the last quiescent point with the
-// current (quiescent) virtual instant: sdns observed it no later than now.
+// windowClean reports whether the upstream traffic since the last quiescent
+// point proves that a single resolution tree was at work. Every side tree
+// sdns can run next to the tree of the one client question (or of the one
+// background refresh) in flight — NS-address lookups for glueless or
+// child-announced hosts, the periodic NS refresh (checkHosts), the detached
+// IPv6 enrichment job, root priming — asks for an NS host's address or for
+// the root NS set; a side tree that asks nothing upstream has nothing fresh
+// to validate and therefore sends no DNSKEY query either.
+func (w *world) windowClean(from int) bool {
+	for _, pk := range w.u.Log.Since(from) {
+		if pk.QNameL == "." && pk.QType == dns.TypeNS {
+			return false
+		}
+		if (pk.QType == dns.TypeA || pk.QType == dns.TypeAAAA) && strings.HasPrefix(pk.QNameL, "ns") {
+			return false // every NS host label starts with "ns"; no client question does
+		}
+	}
+	return true
+}
+
+// settle runs at a quiescent point: it closes the observation window of
+// every referral sent since the previous quiescent point.
 func (w *world) settle() {
 	w.mu.Lock()
 	defer w.mu.Unlock()
 	now := time.Since(w.t0) + w.sk
+	from := w.winFrom
+	w.winFrom = w.u.Log.Len()
+	clean, cleanKnown := false, false
 	for _, r := range w.ref {
 		if r.Q >= 0 {
 			continue
 		}
-		r.Q = now
+		r.Q, r.QT = now, now
 		if r.DSOnly || r.Level == 0 {
+			continue
+		}
+		if !cleanKnown {
+			clean, cleanKnown = w.windowClean(from), true
+		}
+		if !clean {
 			continue
 		}
 		// PacketLog.At counts from the creation of the universe, which is
@@ -403,7 +442,7 @@ func (w *world) settle() {
 		for _, pk := range w.u.Log.Since(r.logLen) {
 			if pk.QType == dns.TypeDNSKEY && pk.QNameL == w.apex[r.Level-1] && !pk.Sink {
 				if at := pk.At + w.sk; at < r.Q && at >= r.SentV {
-					r.Q, r.Tight = at, true
+					r.QT, r.Tight = at, true
 				}
 				break
 			}
@@ -411,48 +450,58 @@ func (w *world) settle() {
 	}
 }
 
-func grant(r *referral) time.Duration {
+// ttlOf is min(NS TTL, DS TTL) of a referral as sent.
+func ttlOf(r *referral) time.Duration {
 	ttl := r.NSTTL
 	if r.HasDS && r.DSTTL < ttl {
 		ttl = r.DSTTL
 	}
-	d := time.Duration(ttl) * time.Second
-	if d > ceiling {
-		d = ceiling
-	}
-	return d
+	return time.Duration(ttl) * time.Second
 }
 
-// bounds computes, per level, the latest instant any referral sent so far can
-// have leased that level's delegation until: max over referrals of
-// min(q + min(NS TTL, DS TTL, 12 h), bound of the level above at that time).
-// oldOnly ignores referrals of the re-pointed generation. All referrals must
-// be settled.
-func (w *world) bounds(oldOnly bool) []time.Duration {
+// limits are the per-level upper bounds derived from the referrals sent.
+type limits struct {
+	// lease[j]: the latest instant any referral sent so far can have leased
+	// level j's delegation until, by the statement: max over referrals of
+	// min(observed + min(NS TTL, DS TTL), stored + 12 h, lease of the level
+	// above at that time), with observed ≤ QT and stored ≤ Q.
+	lease []time.Duration
+	// grant[j]: the same without the 12 h ceiling — what the PARENTS granted.
+	// It only serves to classify a violation (data served after lease[j] but
+	// within grant[j] is the resolver missing its own ceiling, not a ghost).
+	grant []time.Duration
+}
+
+// bounds computes the limits. oldOnly ignores referrals of the re-pointed
+// generation.
+func (w *world) bounds(oldOnly bool) limits {
 	w.mu.Lock()
 	defer w.mu.Unlock()
-	a := make([]time.Duration, len(w.apex))
-	a[0] = noBound
-	for j := 1; j < len(a); j++ {
-		a[j] = -1
+	n := len(w.apex)
+	l := limits{lease: make([]time.Duration, n), grant: make([]time.Duration, n)}
+	l.lease[0], l.grant[0] = noBound, noBound
+	for j := 1; j < n; j++ {
+		l.lease[j], l.grant[j] = -1, -1
 	}
 	for _, r := range w.ref {
 		if r.DSOnly || r.Level == 0 || (oldOnly && r.New) {
 			continue
 		}
-		q := r.Q
+		q, qt := r.Q, r.QT
 		if q < 0 {
 			q = time.Since(w.t0) + w.sk
+			qt = q
 		}
-		b := q + grant(r)
-		if up := a[r.Level-1]; up < b {
-			b = up
+		g := min(qt+ttlOf(r), l.grant[r.Level-1])
+		b := min(qt+ttlOf(r), q+ceiling, l.lease[r.Level-1])
+		if g > l.grant[r.Level] {
+			l.grant[r.Level] = g
 		}
-		if b > a[r.Level] {
-			a[r.Level] = b
+		if b > l.lease[r.Level] {
+			l.lease[r.Level] = b
 		}
 	}
-	return a
+	return l
 }
 
 // dsBound is the latest instant the victim's own (parent-side) DS RRset may
